@@ -58,6 +58,22 @@ func (x *Exec) libCall(key string, fn *types.Func, call *ast.CallExpr, recvExpr 
 		}
 		x.W.Note("fmt.Sprintf result abstracted")
 		return []Term{x.fresh("sprintf", types.Typ[types.String])}, true
+	case "io.ReadFull", "io.ReadAtLeast":
+		// n bytes are written into the window buf[0:n]; err == nil exactly when the window was filled
+		x.evalMulti(call.Args[0], env)
+		dst := x.eval(call.Args[1], env)
+		if x.termMode {
+			unsupported("io.ReadFull in term mode")
+		}
+		n := x.W.Fresh("nread", SInt)
+		x.W.AddFact(env.pc, And(Cmp(">=", n, IntLit(0)), Cmp("<=", n, x.W.SeqLen(dst))))
+		x.overwriteWindow(call.Args[1], dst, env)
+		if key == "io.ReadAtLeast" {
+			x.evalMulti(call.Args[2], env)
+			e := x.W.Fresh("rderr", SBool)
+			return []Term{n, e}, true
+		}
+		return []Term{n, Not(Eq(n, x.W.SeqLen(dst)))}, true
 	case "bytes.(*Buffer).WriteByte", "strings.(*Builder).WriteByte":
 		cur := x.eval(recvExpr, env)
 		v := arg(0)
@@ -376,4 +392,41 @@ func (x *Exec) libCall(key string, fn *types.Func, call *ast.CallExpr, recvExpr 
 		return out, true
 	}
 	return nil, false
+}
+
+// overwriteWindow: an external callee wrote unknown bytes into the window `dst` of the slice rooted at the
+// variable under dstExpr: the root keeps offset and length, elements outside the window are unchanged.
+func (x *Exec) overwriteWindow(dstExpr ast.Expr, dst Term, env *Env) {
+	root := dstExpr
+	for {
+		if se, ok := ast.Unparen(root).(*ast.SliceExpr); ok {
+			root = se.X
+			continue
+		}
+		break
+	}
+	rv := x.eval(root, env)
+	if !x.W.IsSeq(rv.Sort) {
+		unsupported("external write into non-slice root")
+	}
+	es := x.W.SeqElem(rv.Sort)
+	nb := x.W.Fresh("wr", ArraySort(SInt, es))
+	nv, _ := x.W.WithField(rv, "base", nb)
+	nv.GoT = rv.GoT
+	c := x.W.Fresh("wrd", nv.Sort)
+	c.GoT = nv.GoT
+	x.W.Facts = append(x.W.Facts, Eq(c, nv).S)
+	a := x.named("wroff", Arith("-", x.W.SeqOff(dst), x.W.SeqOff(rv)))
+	x.W.nfresh++
+	q := fmt.Sprintf("q!%d", x.W.nfresh)
+	qj := T(q, SInt)
+	out := Or(Cmp("<", qj, a), Cmp(">=", qj, Arith("+", a, x.W.SeqLen(dst))))
+	x.W.AddFact(env.pc, T(fmt.Sprintf("(forall ((%s Int)) (! %s :pattern (%s)))", q,
+		Implies(out, Eq(x.W.SeqAt(c, qj), x.W.SeqAt(rv, qj))).S, x.W.SeqAt(c, qj).S), SBool))
+	if es == SInt {
+		// bytes stay bytes
+		x.W.AddFact(env.pc, T(fmt.Sprintf("(forall ((%s Int)) (! %s :pattern (%s)))", q,
+			And(Cmp("<=", IntLit(0), x.W.SeqAt(c, qj)), Cmp("<=", x.W.SeqAt(c, qj), IntLit(255))).S, x.W.SeqAt(c, qj).S), SBool))
+	}
+	x.assign(root, c, env)
 }
